@@ -11,7 +11,8 @@ EXPLANATION = ("static analysis: delta_conformity is interpreted end to end (all
                "changes nothing; with one shared label the score is 1 for a node that reaches another node and 0 otherwise.  "
                "sliding_delta_conformity is interpreted with delta_conformity recorded: it is evaluated exactly at the ids t with "
                "t + delta before the last id, with the caller's arguments, None results are skipped, and every score is stamped "
-               "t + delta.  NOT decided: invariance under renaming node ids, label hierarchies, profile_size > 1, larger graphs")
+               "t + delta.  NOT decided: invariance under renaming node ids, label hierarchies, profile_size > 1, larger graphs"
+               ";  damping factors that share a '%.2f' key; the first snapshot id being the literal 0 (sampling zero pairs yields nothing - the only fact about the sampler that is used); no state shared between calls (P7)")
 
 
 def run(repo: Repo, tier, rep: Report):
